@@ -72,6 +72,11 @@ def check_context_presence(prog, rep, rule):
                     err_ok = True
         for r in tries:
             t = r[0]
+            # `x?` leaves with Err exactly when `x is Ok` fails: normalised, that test is "the context has the label"
+            ok_test = norm.Normalizer()(("matches", t, norm.OK_DESC))
+            h = q.as_has(ok_test)
+            if h is not None and h[0] == ctx and elems_over(h[1], is_src):
+                err_ok = True
             if ((t[0] == "hof" and t[1] in ("ok_or_else",)) or (t[0] == "call" and isinstance(t[1], str) and t[1].endswith("ok_or"))):
                 inner = t[2] if t[0] == "hof" else t[2][0]
                 g = q.as_get(inner)
@@ -127,7 +132,7 @@ def check_wildcard_binding(prog, rep, rule, en):
         rep.unresolved(rule, "extend_context_with_wild_cards", "", "function not found")
         return
     rep.functions.add(f.qual)
-    eng = terms.Engine(prog, inline=True, hooks=E.Hooks([CTXMOD]))
+    eng = terms.Engine(prog, inline=True, hooks=E.eval_hooks())
     s = eng.summary(f)
     pn = f.param_names()
     selfp, props, doms = pn[0], ("param", pn[1]), ("param", pn[2])
